@@ -97,6 +97,7 @@ type Sim struct {
 	siteSw   map[uint64]struct{}
 	lastSite int32
 	polSet   bool
+	budget   int64
 	pol      int
 	// ClockSkew is added to every clock reading (clock faults).
 	ClockSkew int64
